@@ -103,6 +103,105 @@ theorem normKey_idem (k : String) : normKey (normKey k) = normKey k := by
   intro c _
   by_cases h : c = '_' <;> simp [h]
 
+/-! ## frame and key-uniqueness laws of the store (every table, store, key, value) -/
+
+theorem find_map_other (s : Store) (k k' : String) (v : PyVal) (h : k' ≠ k) :
+    (s.map (fun e => if e.1 == k then (k, v) else e)).find? (·.1 == k') = s.find? (·.1 == k') := by
+  induction s with
+  | nil => rfl
+  | cons e r ih =>
+    rw [List.map_cons, List.find?_cons, List.find?_cons, ih]
+    by_cases he : e.1 = k
+    · have h1 : (e.1 == k') = false := by rw [he]; simpa using h.symm
+      have h2 : (k == k') = false := by simpa using h.symm
+      simp [he, h2]
+    · have : (e.1 == k) = false := by simpa using he
+      simp [this]
+
+theorem storeGet_set_other (s : Store) (k k' : String) (v : PyVal) (h : k' ≠ k) :
+    storeGet (storeSet s k v) k' = storeGet s k' := by
+  unfold storeGet storeSet
+  split
+  · rw [find_map_other s k k' v h]
+  · have h2 : (k == k') = false := by simpa using h.symm
+    simp [List.find?_append, h2]
+
+theorem storeGet_del_other (s : Store) (k k' : String) (h : k' ≠ k) :
+    storeGet (storeDel s k) k' = storeGet s k' := by
+  unfold storeGet storeDel
+  congr 1
+  induction s with
+  | nil => rfl
+  | cons e r ih =>
+    have h2 : (k == k') = false := by simpa using h.symm
+    by_cases he : e.1 = k
+    · have h1 : (e.1 != k) = false := by simp [he]
+      rw [List.filter_cons, h1, List.find?_cons, he, h2]
+      simpa using ih
+    · have h1 : (e.1 != k) = true := by simpa using he
+      rw [List.filter_cons, h1, if_pos rfl, List.find?_cons, List.find?_cons, ih]
+
+/-- frame: a successful assignment to one attribute leaves every other attribute as it was -/
+theorem setAttr_frame (validate : Nat → PyVal → Res) (t : Tbl) (s s' : Store) (key k' : String) (v : PyVal)
+    (h : setAttr validate t s key v = .ok s') (hk : k' ≠ normKey key) : storeGet s' k' = storeGet s k' := by
+  unfold setAttr at h
+  cases v with
+  | none => cases h; exact storeGet_del_other _ _ _ hk
+  | _ =>
+    all_goals
+      simp only at h
+      split at h
+      · cases h
+      · split at h
+        · cases h; exact storeGet_set_other _ _ _ _ hk
+        · cases h
+        · cases h
+
+theorem keys_storeSet (s : Store) (k : String) (v : PyVal) :
+    (storeSet s k v).map (·.1) = if s.any (·.1 == k) then s.map (·.1) else s.map (·.1) ++ [k] := by
+  unfold storeSet
+  split
+  · rw [List.map_map]; apply List.map_congr_left; intro e _
+    by_cases he : e.1 = k <;> simp [he]
+  · simp
+
+/-- no attribute is ever stored twice (duplicate attributes would make the output ill-formed) -/
+theorem setAttr_keys_nodup (validate : Nat → PyVal → Res) (t : Tbl) (s s' : Store) (key : String) (v : PyVal)
+    (hn : (s.map (·.1)).Nodup) (h : setAttr validate t s key v = .ok s') : (s'.map (·.1)).Nodup := by
+  have hdel : ∀ k, ((storeDel s k).map (·.1)).Nodup := by
+    intro k; unfold storeDel
+    exact List.Nodup.sublist (List.Sublist.map _ List.filter_sublist) hn
+  have hset : ∀ k v, ((storeSet s k v).map (·.1)).Nodup := by
+    intro k v; rw [keys_storeSet]
+    split
+    · exact hn
+    · rename_i hk
+      rw [List.nodup_append]
+      refine ⟨hn, by simp, ?_⟩
+      intro a ha b hb
+      simp at hb; subst hb
+      intro hab; subst hab
+      apply hk
+      obtain ⟨e, he, rfl⟩ := List.mem_map.mp ha
+      exact List.any_eq_true.mpr ⟨e, he, by simp⟩
+  unfold setAttr at h
+  cases v with
+  | none => cases h; exact hdel _
+  | _ =>
+    all_goals
+      simp only at h
+      split at h
+      · cases h
+      · split at h
+        · cases h; exact hset _ _
+        · cases h
+        · cases h
+
+/-- non-vacuity: a store with distinct keys, an accepted assignment, another key left alone -/
+example : ([("font-size", PyVal.int 1)].map (·.1)).Nodup ∧
+    (match setAttr (fun _ _ => .ok) [("font-size", 7, false), ("color", 3, false)] [("font-size", .int 1)] "color" (.int 2) with
+      | .ok s => storeGet s "font-size" == some (.int 1) | .error _ => false) = true := by decide
+
 example : (match setAttr (fun _ _ => .ok) [("font-size", 7, false)] [] "font_size" (.int 12) with
     | .ok s => s.map (·.1) | .error _ => []) = ["font-size"] := by decide
 end C04
@@ -114,5 +213,9 @@ end C04
 #print axioms C04.missingRequired_nil_iff
 #print axioms C04.serialised_eq_store
 #print axioms C04.normKey_idem
+#print axioms C04.storeGet_set_other
+#print axioms C04.storeGet_del_other
+#print axioms C04.setAttr_frame
+#print axioms C04.setAttr_keys_nodup
 #print axioms C15.reserved_collisions
 #print axioms C15.attr_names_no_underscore
